@@ -408,7 +408,10 @@ def C11(tier):
 def C13(tier):
     models = [
         dict(module="Lookup", name="MC_Lookup",
-             cfg=dict(constants=dict(MaxLen=q(tier, 5, 6), Dom=q(tier, 5, 5), Emit=False), invariants=["EdgesOK", "LookupOK", "AccessorsOK"])),
+             cfg=dict(constants=dict(MaxLen=q(tier, 5, 6), Dom=q(tier, 5, 5), Emit=False), invariants=["EdgesOK", "LookupOK", "AccessorsOK", "ContractOK", "MatchOK"])),
+        # every length: the five-way match on the binary-search outcome is the left-closed right-open lookup (TLAPS, from the
+        # contract of slice::binary_search); MC_Lookup checks that the model's search outcome satisfies that contract
+        dict(engine="tlaps", module="LookupProof", name="TLAPS_LookupProof", deps=["LookupAlg"]),
         dict(module="Lookup", name="MC_Lookup_emit", emit=True,
              cfg=dict(constants=dict(MaxLen=q(tier, 4, 5), Dom=4, Emit=True), invariants=["EdgesOK", "EmitInv"])),
     ]
